@@ -244,6 +244,68 @@ def check_interleaving(ctx, rng, cases):
     return None
 
 
+def check_interleaving_dense(ctx, rng):
+    """Two or three dense-time online monitors (formulas with constants, some of them reset and fed again) whose update() /
+    reset() calls are interleaved: each must return what it returns when driven alone with the same calls."""
+    k = rng.choice([2, 3])
+    cases = []
+    for _ in range(k):
+        g = D.DGen(rng, D.VARS[:2], D.DENSE_ON, max_bound=4)
+        f = g.formula(rng.choice([1, 2]))
+        if not any(x[0] == "c" for x in F.subformulas(f)) or not F.variables(f):
+            f = ("b", rng.choice(["and", "or"]), f, ("b", rng.choice(["ge", "le"]), ("v", rng.choice(D.VARS[:2])), ("c", rng.choice([0.0, 1.0, 2.0]))))
+        vs = F.variables(f)
+        sig = D.gen_signals(rng, vs)
+        times = sorted({t for v in vs for (t, _) in sig[v]})[1:]
+        cuts = sorted(rng.sample(times, min(len(times), rng.randint(1, 2)))) if times else []
+        nb = len(cuts) + 1
+        ops = [("u", j) for j in range(nb)]
+        if rng.random() < 0.7:
+            p_ = rng.randint(0, nb)
+            ops = [("u", j) for j in range(p_)] + [("r", 0)] + ops       # a prefix, reset(), then everything from the start
+        cases.append({"f": f, "vs": vs, "sig": sig, "cuts": cuts, "ops": ops})
+    order = [i for i, c in enumerate(cases) for _ in c["ops"]]
+    rng.shuffle(order)
+    texts = [D.spec_text(c["f"]) for c in cases]
+
+    def mk(i):
+        s_ = impl.make_spec("onc", texts[i], cases[i]["vs"])
+        s_.parse()
+        return s_
+
+    def step(spec, c, op):
+        if op[0] == "r":
+            spec.reset()
+            return "reset"
+        chunks = {v: D.chunk_signal(c["sig"][v], c["cuts"]) for v in c["vs"]}
+        return spec.update(*[[v, D.py_sig(chunks[v][op[1]])] for v in c["vs"]])
+
+    def go():
+        objs = [mk(i) for i in range(k)]
+        pos = [0] * k
+        outs = [[] for _ in range(k)]
+        for i in order:
+            outs[i].append(step(objs[i], cases[i], cases[i]["ops"][pos[i]]))
+            pos[i] += 1
+        alone = []
+        for i, c in enumerate(cases):
+            s_ = mk(i)
+            alone.append([step(s_, c, op) for op in c["ops"]])
+        return outs, alone
+    out = impl.guarded(go, 10.0, True)
+    rep = {"kind": "interleave-dense", "specs": texts, "ops": [c["ops"] for c in cases], "order": order,
+           "signals": [D.sig_rep(c["sig"]) for c in cases], "cuts": [[str(x) for x in c["cuts"]] for c in cases], "impl": out}
+    if out[0] != "ok":
+        return Violation("interleaved dense online calls raised %r: %s" % (out[1:], texts), rep, stream="pure/interleave-dense")
+    outs, alone = out[1]
+    for i in range(k):
+        if outs[i] != alone[i] and str(outs[i]) != str(alone[i]):
+            return Violation("dense online monitor %d (%s) returns %r when its calls %r are interleaved with another object's, %r alone"
+                             % (i, texts[i], outs[i], cases[i]["ops"], alone[i]), rep, stream="pure/interleave-dense")
+    ctx.nontrivial.add(("interleave-dense", str(texts), str(order)))
+    return None
+
+
 def hashseed_sweep(ctx):
     """Run a fixed sub-stream in sub-processes under different hash seeds; outputs must be identical."""
     seeds = [0, 1, 2] if ctx.tier == "quick" else list(range(16))
@@ -353,6 +415,17 @@ def period_units_case(ctx, op, k, c0, num, x, order):
 
 def explore(ctx, rng, count):
     for i_ in range(count):
+        if i_ % 8 == 3:
+            ctx.evaluations += 1
+            ctx.count("kind:interleave-dense")
+            v = check_interleaving_dense(ctx, rng)
+            if v is None:
+                ctx.traces_validated += 1
+            else:
+                ctx.violations.append(v)
+                if len(ctx.violations) >= 3:
+                    return
+            continue
         if i_ % 8 == 7:
             ctx.evaluations += 1
             ctx.count("kind:period-units")
@@ -393,6 +466,8 @@ def replay(ctx, obj):
         c = {"kind": "offd", "f": F.from_proto(obj["formula"]), "n": obj["n"], "data": {k: [float(x) for x in v] for k, v in obj["data"].items()},
              "units": obj.get("units")}
         v = check_offline_discrete(scratch, c)
+    elif obj["kind"] == "interleave-dense":
+        return True, "interleaving case (re-run ./check C11 to re-check it)"
     elif obj["kind"] == "offc":
         v = check_offline_dense(scratch, {"f": F.from_proto(obj["formula"]), "sig": D.sig_of_rep(obj["signals"]), "units_seed": obj.get("units_seed")})
     elif obj["kind"] == "interleave":
